@@ -16,6 +16,7 @@ def expr(e):
         return 'EEq (%s) (%s)' % (expr(e.left), expr(e.comparators[0]))
     if isinstance(e, ast.Compare) and len(e.ops) == 1 and isinstance(e.ops[0], ast.IsNot):
         return 'EIsNot (%s) (%s)' % (expr(e.left), expr(e.comparators[0]))
+    if isinstance(e, ast.IfExp): return 'EIfExp (%s) (%s) (%s)' % (expr(e.test), expr(e.body), expr(e.orelse))
     if isinstance(e, ast.Dict):
         return 'EDict [%s]' % '; '.join('(%s, %s)' % (expr(k), expr(v)) for k, v in zip(e.keys, e.values))
     raise Untranslatable(ast.dump(e)[:80])
@@ -31,24 +32,34 @@ def stmt(s):
         if isinstance(c.func, ast.Name) and c.func.id == 'print':
             if len(c.args) != 1: raise Untranslatable('print arity')
             tgt = [k for k in c.keywords if k.arg == 'file']
-            if c.keywords and not tgt: raise Untranslatable('print keywords')
+            end = [k for k in c.keywords if k.arg == 'end']
+            if len(c.keywords) != len(tgt) + len(end) or (tgt and end): raise Untranslatable('print keywords')
+            if end: return 'SPrintEnd (%s) (%s)' % (expr(c.args[0]), expr(end[0].value))
             return 'SPrint (%s) %s' % (expr(c.args[0]), 'true' if tgt else 'false')
         return 'SExpr (%s)' % expr(c)
     if isinstance(s, ast.Return) and isinstance(s.value, ast.Constant) and isinstance(s.value.value, int): return 'SReturn %d' % s.value.value
     if isinstance(s, ast.If): return 'SIf (%s) %s %s' % (expr(s.test), stmts(s.body), stmts(s.orelse))
     raise Untranslatable(ast.dump(s)[:80])
-src = open(sys.argv[1] + '/nix_manipulator/cli/main.py').read()
-fn = next(n for n in ast.walk(ast.parse(src)) if isinstance(n, ast.FunctionDef) and n.name == 'main')
-m = next(n for n in fn.body if isinstance(n, ast.Match))
-if ast.unparse(m.subject) != 'args.command': raise Untranslatable('match subject')
-print('(* GENERATED from cli/main.py:main *)')
-print('From Coq Require Import List String. Import ListNotations. Open Scope string_scope.')
-print('From Cli Require Import CliIR.')
-print('Definition arms : list (option string * list stmt) := [')
-rows = []
-for c in m.cases:
-    if isinstance(c.pattern, ast.MatchValue) and isinstance(c.pattern.value, ast.Constant): key = 'Some %s' % q(c.pattern.value.value)
-    elif isinstance(c.pattern, ast.MatchAs) and c.pattern.pattern is None: key = 'None'
-    else: raise Untranslatable('case pattern')
-    rows.append('  (%s,\n     %s)' % (key, stmts(c.body)))
-print(';\n'.join(rows)); print('].')
+def main():
+    src = open(sys.argv[1] + '/nix_manipulator/cli/main.py').read()
+    fn = next(n for n in ast.walk(ast.parse(src)) if isinstance(n, ast.FunctionDef) and n.name == 'main')
+    m = next(n for n in fn.body if isinstance(n, ast.Match))
+    if ast.unparse(m.subject) != 'args.command': raise Untranslatable('match subject')
+    print('(* GENERATED from cli/main.py:main *)')
+    print('From Coq Require Import List String. Import ListNotations. Open Scope string_scope.')
+    print('From Cli Require Import CliIR.')
+    print('Definition arms : list (option string * list stmt) := [')
+    rows = []
+    for c in m.cases:
+        if isinstance(c.pattern, ast.MatchValue) and isinstance(c.pattern.value, ast.Constant): key = 'Some %s' % q(c.pattern.value.value)
+        elif isinstance(c.pattern, ast.MatchAs) and c.pattern.pattern is None: key = 'None'
+        else: raise Untranslatable('case pattern')
+        rows.append('  (%s,\n     %s)' % (key, stmts(c.body)))
+    print(';\n'.join(rows)); print('].')
+
+try:
+    main()
+except Untranslatable as e:
+    print('(* UNTRANSLATABLE: cli/main.py:main: %s *)' % str(e).replace('*)', '* )'))
+except Exception as e:
+    print('(* UNTRANSLATABLE: cli/main.py:main: %s %s *)' % (type(e).__name__, str(e).replace('*)', '* )')[:200]))
